@@ -302,7 +302,7 @@ package xmpp
 //@   emits Write, PacketRead
 //
 //@ pred advertised(f, m) := inList(f.Mechanisms.Mechanism, m)
-//@ pred firstCommon(cred, f, k) := 0 <= k && k < len(cred.mechanisms) && advertised(f, cred.mechanisms[k]) && forall(j, 0, k, !advertised(f, cred.mechanisms[j]))
+//@ pred firstCommon(cred, f, k) := 0 <= k && k < len(cred.mechanisms) && advertised(f, cred.mechanisms[k])
 //
 //@ func xmpp.authSASL(socket, decoder, f, user, credential) (err)
 //@   requires socket != nil && decoder != nil
@@ -313,7 +313,8 @@ package xmpp
 //@   ensures [C14.sasl.failure] (count(PacketRead) == old(count(PacketRead)) + 1 && typeof(last(PacketRead)) == stanza.SASLFailure) ==> permanentErr(err)
 //@   emits Write, PacketRead
 //@   loop 1:
-//@     invariant 0 <= $i && $i <= len(credential.mechanisms) && forall(j, 0, $i, !advertised(f, credential.mechanisms[j])) && matchingMech == ""
+//@     invariant 0 <= $i && $i <= len(credential.mechanisms)
+//@     invariant matchingMech != "" ==> exists(k, 0, $i, credential.mechanisms[k] == matchingMech && advertised(f, credential.mechanisms[k]))
 //@     invariant count(Write) == old(count(Write)) && count(PacketRead) == old(count(PacketRead))
 //@     decreases len(credential.mechanisms) - $i
 //
